@@ -107,7 +107,9 @@ def processMessage (env : Env) (sr : Msg → Bool) (m : Msg) : M Unit := do
 /-- one iteration of `heartbeat_timer_task` (l.351-388) at time `env.now`.
 Thresholds (seconds in the code, milliseconds here): TestRequest when ACTIVE and
 `now − last > hb − 1`; disconnect when `last ≠ 0` and `now − last > 2·hb`, and when a TestReqID is
-outstanding (truthy: not `None`, not 0) and `now − id > 2·hb`.  `if not self._test_req_id` treats an id
+outstanding (truthy: not `None`, not 0) and `now − id > 2·hb` and `now − last > 2·hb` (fix e3d9663:
+valid traffic since the TestRequest spares the peer; `last` is stamped by the tick only right after a
+TestRequest was sent).  `if not self._test_req_id` treats an id
 of 0 like none, whereas `send_test_req` refuses it (`is not None`): mirrored.  An exception aborts the
 iteration (the task logs it and starts the next one). -/
 def tickBody (env : Env) : M Unit := do
@@ -115,9 +117,11 @@ def tickBody (env : Env) : M Unit := do
   if !c.sock then pure ()
   else do
     if c.state == st_ACTIVE then
-      if env.now - c.lastTime > (c.hb - 1) * 1000 then do
-        if c.testReqId.getD 0 == 0 then sendTestReq env else pure ()
-        M.modify fun c => { c with lastTime := env.now }
+      if env.now - c.lastTime > (c.hb - 1) * 1000 then
+        if c.testReqId.getD 0 == 0 then do
+          sendTestReq env
+          M.modify fun c => { c with lastTime := env.now }
+        else pure ()
       else pure ()
     else pure ()
     let c1 ← M.get
@@ -125,7 +129,8 @@ def tickBody (env : Env) : M Unit := do
       disconnect env st_DISCONNECTED_BROKEN_CONN none
     else pure ()
     let c2 ← M.get
-    if c2.testReqId.getD 0 != 0 && env.now - (c2.testReqId.getD 0) * 1000 > c2.hb * 2 * 1000 then
+    if c2.testReqId.getD 0 != 0 && env.now - (c2.testReqId.getD 0) * 1000 > c2.hb * 2 * 1000
+        && env.now - c2.lastTime > c2.hb * 2 * 1000 then
       disconnect env st_DISCONNECTED_BROKEN_CONN none
     else pure ()
 
